@@ -54,6 +54,12 @@ theorem walkNot_ok : RuleOK .not walkNot where
     rw [this.1, this.2, eval_not]
     refine ⟨rfl, ?_⟩
     exact div0_args_false I .not [a] p rfl hd a (by simp)
+  total := by
+    intro p args τ hwf hty _ I hI _
+    obtain ⟨a, rfl, hawf, haty⟩ := wf_not_inv hwf
+    have := (walkNot1_spec ⟨hawf, haty⟩).2.1 I hI
+    show eval I (walkNot1 a) = _
+    rw [this.1, eval_not]
   fv := by
     intro p args τ hwf hty _ s hs
     obtain ⟨a, rfl, hawf, haty⟩ := wf_not_inv hwf
@@ -285,8 +291,8 @@ theorem eval_ac {o u} (hou : ACOp o u) (I : Interp) (args : List Term) (p : Payl
 
 theorem acResult_spec {o u} (hou : ACOp o u) (args : List Term) (p : Payload) (hargs : ∀ a ∈ args, BT a) :
     BT (acResult o u args) ∧
-    (∀ I : Interp, I.WF → div0 I (.node o args p) = false →
-      eval I (acResult o u args) = eval I (.node o args p) ∧ div0 I (acResult o u args) = false) ∧
+    (∀ I : Interp, I.WF → eval I (acResult o u args) = eval I (.node o args p) ∧
+      (div0 I (.node o args p) = false → div0 I (acResult o u args) = false)) ∧
     (∀ s ∈ (acResult o u args).fv, s ∈ (Term.node o args p).fv) := by
   have hq : o.isQuantifier = false ∧ o ≠ .symbol ∧ o ≠ .function := by
     rcases hou with ⟨rfl, _⟩ | ⟨rfl, _⟩ <;> exact ⟨rfl, by simp, by simp⟩
@@ -295,10 +301,10 @@ theorem acResult_spec {o u} (hou : ACOp o u) (args : List Term) (p : Payload) (h
   cases hc : acLoop o u args [] with
   | none =>
     rw [hc] at hspec
-    refine ⟨BT_bool _, fun I hI _ => ?_, by simp [bool_]⟩
+    refine ⟨BT_bool _, fun I hI => ?_, by simp [bool_]⟩
     have := hspec I hI
     simp only [List.all_nil, Bool.true_and] at this
-    simp only [bool_, eval_boolc, div0_bool, and_true, eval_ac hou, this]
+    simp only [bool_, eval_boolc, div0_bool, implies_true, and_true, eval_ac hou, this]
     cases u <;> rfl
   | some l =>
     rw [hc] at hspec
@@ -322,15 +328,15 @@ theorem acResult_spec {o u} (hou : ACOp o u) (args : List Term) (p : Payload) (h
     rcases hou with ⟨rfl, rfl⟩ | ⟨rfl, rfl⟩
     · obtain ⟨h1, h2, h3, h4⟩ := and_spec (fun a ha => (hl a ha).1) (fun a ha => (hl a ha).2)
       simp only [↓reduceIte]
-      refine ⟨⟨h2, h1⟩, fun I hI hd => ?_, fun s hs => hfv s (h4 s hs)⟩
-      rw [(h3 I hI).1, (h3 I hI).2, hd0 I hd, eval_and]
+      refine ⟨⟨h2, h1⟩, fun I hI => ⟨?_, fun hd => by rw [(h3 I hI).2, hd0 I hd]⟩, fun s hs => hfv s (h4 s hs)⟩
+      rw [(h3 I hI).1, eval_and]
       have := hv I hI
       simp only [List.all_nil, Bool.true_and, lit_true_fun] at this
-      simp only [this, and_true]
+      simp only [this]
     · obtain ⟨h1, h2, h3, h4⟩ := or_spec (fun a ha => (hl a ha).1) (fun a ha => (hl a ha).2)
       simp only [Bool.false_eq_true, ↓reduceIte]
-      refine ⟨⟨h2, h1⟩, fun I hI hd => ?_, fun s hs => hfv s (h4 s hs)⟩
-      rw [(h3 I hI).1, (h3 I hI).2, hd0 I hd]
+      refine ⟨⟨h2, h1⟩, fun I hI => ⟨?_, fun hd => by rw [(h3 I hI).2, hd0 I hd]⟩, fun s hs => hfv s (h4 s hs)⟩
+      rw [(h3 I hI).1]
       have e1 := eval_ac (Or.inr ⟨rfl, rfl⟩ : ACOp .or false) I args p
       have e2 := eval_ac (Or.inr ⟨rfl, rfl⟩ : ACOp .or false) I l .none
       rw [eval_or] at e2
@@ -338,7 +344,7 @@ theorem acResult_spec {o u} (hou : ACOp o u) (args : List Term) (p : Payload) (h
       simp only [List.all_nil, Bool.true_and] at this
       simp only [Bool.false_eq_true, if_false, this] at e1 e2 ⊢
       rw [e1]
-      exact ⟨e2, trivial⟩
+      exact e2
 
 theorem args_BT_and {args : List Term} {p : Payload} {τ : Ty} (hwf : (Term.node .and args p).wf = true)
     (hty : (Term.node .and args p).typeOf = some τ) : τ = .bool ∧ ∀ a ∈ args, BT a :=
@@ -349,11 +355,10 @@ theorem args_BT_or {args : List Term} {p : Payload} {τ : Ty} (hwf : (Term.node 
   ⟨(typeOf_or_iff.mp hty).1, fun a ha => ⟨wf_args hwf a ha, (typeOf_or_iff.mp hty).2 a ha⟩⟩
 
 /-- the `args[0] == args[1]` shortcut -/
-theorem same_spec {o u} (hou : ACOp o u) (a : Term) (p : Payload) (ha : BT a) (I : Interp) (hI : I.WF)
-    (hd : div0 I (.node o [a, a] p) = false) :
-    eval I a = eval I (.node o [a, a] p) ∧ div0 I a = false := by
+theorem same_spec {o u} (hou : ACOp o u) (a : Term) (p : Payload) (ha : BT a) (I : Interp) (hI : I.WF) :
+    eval I a = eval I (.node o [a, a] p) ∧ (div0 I (.node o [a, a] p) = false → div0 I a = false) := by
   have hq : o.isQuantifier = false := by rcases hou with ⟨rfl, _⟩ | ⟨rfl, _⟩ <;> rfl
-  refine ⟨?_, div0_args_false I o _ p hq hd a (by simp)⟩
+  refine ⟨?_, fun hd => div0_args_false I o _ p hq hd a (by simp)⟩
   rw [eval_bool ha.1 ha.2 hI]
   rcases hou with ⟨rfl, rfl⟩ | ⟨rfl, rfl⟩
   · rw [eval_and]; simp
@@ -364,15 +369,15 @@ theorem walkAnd_ok : RuleOK .and walkAnd := by
   have key : ∀ (p : Payload) (args : List Term) (τ : Ty), (Term.node .and args p).wf = true →
       (Term.node .and args p).typeOf = some τ →
       ((walkAnd p args).typeOf = some τ ∧ (walkAnd p args).wf = true) ∧
-      (∀ I : Interp, I.WF → div0 I (.node .and args p) = false →
-        eval I (walkAnd p args) = eval I (.node .and args p) ∧ div0 I (walkAnd p args) = false) ∧
+      (∀ I : Interp, I.WF → eval I (walkAnd p args) = eval I (.node .and args p) ∧
+        (div0 I (.node .and args p) = false → div0 I (walkAnd p args) = false)) ∧
       (∀ s ∈ (walkAnd p args).fv, s ∈ (Term.node .and args p).fv) := by
     intro p args τ hwf hty
     obtain ⟨rfl, hargs⟩ := args_BT_and hwf hty
     have hres := acResult_spec hou args p hargs
     have gen : ((acResult .and true args).typeOf = some .bool ∧ (acResult .and true args).wf = true) ∧
-      (∀ I : Interp, I.WF → div0 I (.node .and args p) = false →
-        eval I (acResult .and true args) = eval I (.node .and args p) ∧ div0 I (acResult .and true args) = false) ∧
+      (∀ I : Interp, I.WF → eval I (acResult .and true args) = eval I (.node .and args p) ∧
+        (div0 I (.node .and args p) = false → div0 I (acResult .and true args) = false)) ∧
       (∀ s ∈ (acResult .and true args).fv, s ∈ (Term.node .and args p).fv) :=
       ⟨⟨hres.1.2, hres.1.1⟩, hres.2.1, hres.2.2⟩
     unfold walkAnd
@@ -382,11 +387,13 @@ theorem walkAnd_ok : RuleOK .and walkAnd := by
       · next hab =>
         subst hab
         have ha := hargs a (by simp)
-        exact ⟨⟨ha.2, ha.1⟩, fun I hI hd => same_spec hou a p ha I hI hd,
+        exact ⟨⟨ha.2, ha.1⟩, fun I hI => same_spec hou a p ha I hI,
           fun s hs => (mem_fv_plain (by simp) (by simp) rfl).mpr ⟨a, by simp, hs⟩⟩
       · exact gen
     · exact gen
-  exact ⟨fun p args τ h1 h2 _ => (key p args τ h1 h2).1, fun p args τ h1 h2 _ => (key p args τ h1 h2).2.1,
+  exact ⟨fun p args τ h1 h2 _ => (key p args τ h1 h2).1,
+    fun p args τ h1 h2 _ I hI hd => ⟨((key p args τ h1 h2).2.1 I hI).1, ((key p args τ h1 h2).2.1 I hI).2 hd⟩,
+    fun p args τ h1 h2 _ I hI _ => ((key p args τ h1 h2).2.1 I hI).1,
     fun p args τ h1 h2 _ => (key p args τ h1 h2).2.2⟩
 
 theorem walkOr_ok : RuleOK .or walkOr := by
@@ -394,15 +401,15 @@ theorem walkOr_ok : RuleOK .or walkOr := by
   have key : ∀ (p : Payload) (args : List Term) (τ : Ty), (Term.node .or args p).wf = true →
       (Term.node .or args p).typeOf = some τ →
       ((walkOr p args).typeOf = some τ ∧ (walkOr p args).wf = true) ∧
-      (∀ I : Interp, I.WF → div0 I (.node .or args p) = false →
-        eval I (walkOr p args) = eval I (.node .or args p) ∧ div0 I (walkOr p args) = false) ∧
+      (∀ I : Interp, I.WF → eval I (walkOr p args) = eval I (.node .or args p) ∧
+        (div0 I (.node .or args p) = false → div0 I (walkOr p args) = false)) ∧
       (∀ s ∈ (walkOr p args).fv, s ∈ (Term.node .or args p).fv) := by
     intro p args τ hwf hty
     obtain ⟨rfl, hargs⟩ := args_BT_or hwf hty
     have hres := acResult_spec hou args p hargs
     have gen : ((acResult .or false args).typeOf = some .bool ∧ (acResult .or false args).wf = true) ∧
-      (∀ I : Interp, I.WF → div0 I (.node .or args p) = false →
-        eval I (acResult .or false args) = eval I (.node .or args p) ∧ div0 I (acResult .or false args) = false) ∧
+      (∀ I : Interp, I.WF → eval I (acResult .or false args) = eval I (.node .or args p) ∧
+        (div0 I (.node .or args p) = false → div0 I (acResult .or false args) = false)) ∧
       (∀ s ∈ (acResult .or false args).fv, s ∈ (Term.node .or args p).fv) :=
       ⟨⟨hres.1.2, hres.1.1⟩, hres.2.1, hres.2.2⟩
     unfold walkOr
@@ -412,11 +419,13 @@ theorem walkOr_ok : RuleOK .or walkOr := by
       · next hab =>
         subst hab
         have ha := hargs a (by simp)
-        exact ⟨⟨ha.2, ha.1⟩, fun I hI hd => same_spec hou a p ha I hI hd,
+        exact ⟨⟨ha.2, ha.1⟩, fun I hI => same_spec hou a p ha I hI,
           fun s hs => (mem_fv_plain (by simp) (by simp) rfl).mpr ⟨a, by simp, hs⟩⟩
       · exact gen
     · exact gen
-  exact ⟨fun p args τ h1 h2 _ => (key p args τ h1 h2).1, fun p args τ h1 h2 _ => (key p args τ h1 h2).2.1,
+  exact ⟨fun p args τ h1 h2 _ => (key p args τ h1 h2).1,
+    fun p args τ h1 h2 _ I hI hd => ⟨((key p args τ h1 h2).2.1 I hI).1, ((key p args τ h1 h2).2.1 I hI).2 hd⟩,
+    fun p args τ h1 h2 _ I hI _ => ((key p args τ h1 h2).2.1 I hI).1,
     fun p args τ h1 h2 _ => (key p args τ h1 h2).2.2⟩
 
 end PySMT.Simp.BoolRules
